@@ -114,13 +114,13 @@ Definition cloop_fuel {S A} (fuel : N) (f : S -> M (S + A)) (s : S) : M A :=
   match r with inr a => mret a | inl _ => mlift (Panic P_FUEL) end.
 
 (** * [hint::cautious]
-    [let el_size = size_of::<T>() as u32; max(min(hint, 4096 / el_size), 1) as usize]:
-    the cast truncates, the division panics when the truncated size is 0. *)
-Definition U32 : N := 2 ^ 32.
+    [let max_elems = (4096 / size_of::<T>()) as u32; max(min(hint, max_elems), 1) as usize]:
+    the division panics for a zero-sized T (every caller refuses those first: [check_zst]).
+    (Until the fix recorded as F15 the size was truncated to u32 before the division, which
+    panicked for sizes that are multiples of 2^32.) *)
 Definition cautious (size_of_T hint : N) : result N :=
-  let el_size := size_of_T mod U32 in
-  if el_size =? 0 then Panic P_DIV0
-  else Ok (N.max (N.min hint (4096 / el_size)) 1).
+  if size_of_T =? 0 then Panic P_DIV0
+  else Ok (N.max (N.min hint (4096 / size_of_T)) 1).
 
 (** * [RawVec::grow_amortized] on a full buffer of capacity [cap] (one more element needed) *)
 Definition min_non_zero_cap (e : N) : N := if e =? 1 then 8 else if e <=? 1024 then 4 else 1.
@@ -296,8 +296,7 @@ Fixpoint fam (t : ty) : bool :=
   | TWrap _ t' => fam t'
   end.
 
-(** The hypothesis on [size_of]: a type that is not memory-zero-sized has a size in
-    (0, 2^32).  (At [size_of::<T>() = k * 2^32] the transcribed [cautious] divides by
-    zero; a value of such a type cannot be returned by value on any default stack, so
-    this is an assumption, not a finding.) *)
-Definition sz_ok (sz : ty -> N) : Prop := forall t, mem_zst t = false -> 0 < sz t /\ sz t < U32.
+(** The hypothesis on [size_of]: a type that is not memory-zero-sized has a positive size
+    (what [mem_zst] means; compared with the real [size_of::<T>()] for every catalogue type on
+    every run). *)
+Definition sz_ok (sz : ty -> N) : Prop := forall t, mem_zst t = false -> 0 < sz t.
